@@ -694,7 +694,11 @@ func TestEnumWord(t *testing.T) {
 // TestEnumJoint enumerates short sequences over the joint signature (raw line class before LB1,
 // grapheme class, word class, Word property, the special runes) through all three algorithms.
 func TestEnumJoint(t *testing.T) {
-	enumerate(t, "enum-joint", algoAll, repsBy(jointSig), envLen("C06_JOINT_LEN", 3))
+	reps := repsBy(jointSig)
+	if si, _ := ev.Shard(); si == 0 {
+		alphabetCoverage("enum-joint", reps)
+	}
+	enumerate(t, "enum-joint", algoAll, reps, envLen("C06_JOINT_LEN", 3))
 }
 
 // TestEnumCodePoints: value-specific paths (fast paths, range edges) show only at specific code
@@ -710,6 +714,9 @@ func TestEnumCodePoints(t *testing.T) {
 	si, sn := ev.Shard()
 	X := edgePoints()
 	joint := repsBy(jointSig)
+	if si == 0 {
+		alphabetCoverage("enum-codepoints", X)
+	}
 	perAlgo := []struct {
 		algo int
 		reps []rune
